@@ -245,6 +245,40 @@ Proof. split; reflexivity. Qed.
 Example C14_pin_traversal_alpha : traversal_default_alpha = 3%Z /\ traversal_default_alpha_ok = true.
 Proof. split; reflexivity. Qed.
 
+(* ---- Part 3: the table maintainer's pass (Server.TableMaintainer: model/Maint.v, proofs/MaintProofs.v) ----
+   One pass is at most one round of pings and one refresh traversal per bucket, visited in index order, and it
+   is over after at most 2 * 160 + 1 phases whatever the remote nodes do; a bucket is refreshed only when, after
+   its pings, it is not full or holds a bad entry, and the traversal is seeded with exactly the not-bad entries;
+   a table whose buckets are full and clean costs no datagram at all. *)
+From Dht Require Import Msg Server Maint MaintProofs.
+
+Section C14_maintenance.
+  Variable id_secure : N -> bytes -> bool.
+  Variable cfg : config.
+  Variable now : Z.
+  Variable answers : node -> bool.
+  Variable refresh : nat -> list node -> list node.
+
+  Theorem C14_maint_pass_bounded nodes :
+    (length (fst (pass id_secure cfg now answers refresh nodes)) <= 2 * 160 + 1)%nat.
+  Proof. exact (pass_from_length id_secure cfg nbuckets 0 now answers refresh nodes). Qed.
+
+  Theorem C14_maint_pass_in_order nodes p j :
+    In p (fst (pass id_secure cfg now answers refresh nodes)) -> phase_index p = Some j -> (0 <= j < 0 + 160)%nat.
+  Proof. exact (pass_from_indices id_secure cfg nbuckets 0 now answers refresh nodes p j). Qed.
+
+  Theorem C14_maint_refresh_only_when_needed nodes j seeds :
+    In (PRefresh j seeds) (fst (pass id_secure cfg now answers refresh nodes)) ->
+    exists tbl, should_stop id_secure cfg tbl j = false /\ seeds = not_bad_nodes id_secure cfg tbl.
+  Proof. exact (pass_from_refresh_needed id_secure cfg nbuckets 0 now answers refresh nodes j seeds). Qed.
+
+  Theorem C14_maint_healthy_table_is_silent nodes :
+    (forall j, (0 <= j < 0 + nbuckets)%nat ->
+       should_stop id_secure cfg nodes j = true /\ ping_targets id_secure cfg now nodes j = []) ->
+    pass id_secure cfg now answers refresh nodes = (map (fun j => PPing j []) (seq 0 nbuckets) ++ [PDone], nodes).
+  Proof. exact (pass_from_healthy id_secure cfg nbuckets 0 now answers refresh nodes). Qed.
+End C14_maintenance.
+
 Print Assumptions C14_sends.
 Print Assumptions C14_tries_default.
 Print Assumptions C14_returns.
@@ -268,3 +302,7 @@ Print Assumptions C14_lookup_measure.
 Print Assumptions C14_lookup_bounded.
 Print Assumptions C14_lookup_wf.
 Print Assumptions C14_owner_stops_refuted_pinned.
+Print Assumptions C14_maint_pass_bounded.
+Print Assumptions C14_maint_pass_in_order.
+Print Assumptions C14_maint_refresh_only_when_needed.
+Print Assumptions C14_maint_healthy_table_is_silent.
